@@ -53,7 +53,7 @@ func r11_1(r *Report, p *Program, e *syncEntry) {
 	r.Check(rule, FK(f)+"[manage≺status]", p.InstrPos(mc), w == nil, "after ManageChildren every path passes updateParentStatus", "a path returns after ManageChildren without attempting the status update; "+pathWhy(w))
 	// skipping ManageChildren (dying parent) still updates status: from the gate's blocks
 	var from []engine.Point
-	for _, b := range f.Blocks {
+	for _, b := range engine.BlocksInl(f) {
 		for i := range b.Succs {
 			if l, ok := engine.EdgeLit(b, i); ok && !l.Pos && isShouldFinalizeLit(l) {
 				from = append(from, engine.Point{B: b.Succs[i]})
@@ -70,7 +70,7 @@ func r11_1(r *Report, p *Program, e *syncEntry) {
 	// ManageChildren's error reaches a return only after the status update, and is returned
 	ev := engine.ErrValue(e.Manage.Instr)
 	okR := false
-	for _, b := range f.Blocks {
+	for _, b := range engine.BlocksInl(f) {
 		for _, in := range b.Instrs {
 			if rt, isR := in.(*ssa.Return); isR && ev != nil && engine.BackSlice(rt.Results[0], func(x ssa.Value) bool { return x == ev }, engine.Is("fmt.Errorf")) {
 				okR = true
@@ -98,7 +98,7 @@ func r11_2(r *Report, p *Program, e *syncEntry) {
 	}
 	asu := asus[0].Instr.(ssa.Instruction)
 	var og *ssa.MapUpdate
-	for _, b := range ups.Blocks {
+	for _, b := range engine.BlocksInl(ups) {
 		for _, in := range b.Instrs {
 			if mu, ok := in.(*ssa.MapUpdate); ok {
 				if k, isC := constStr(mu.Key); isC && k == "observedGeneration" {
@@ -120,7 +120,7 @@ func r11_2(r *Report, p *Program, e *syncEntry) {
 	r.Check(rule, FK(ups)+"[observedGeneration]", p.Pos(ups.Pos()), ok, "status[observedGeneration] = parent.GetGeneration() before the write", why)
 	// nil status replaced by an empty map
 	okN := false
-	for _, b := range ups.Blocks {
+	for _, b := range engine.BlocksInl(ups) {
 		for i := range b.Succs {
 			if l, has := engine.EdgeLit(b, i); has {
 				if v, isNil, isT := l.NilTest(); isT && isNil && engine.DependsOnValue(v, ups.Params[2], nil) {
@@ -197,7 +197,7 @@ func r11_2(r *Report, p *Program, e *syncEntry) {
 	// rolling path: aggregated Status is latest's
 	if sr := fn(r, p, rule, "controller/composite.parentController.syncRevisions"); sr != nil {
 		okL := false
-		for _, b := range sr.Blocks {
+		for _, b := range engine.BlocksInl(sr) {
 			for _, in := range b.Instrs {
 				if st, isS := in.(*ssa.Store); isS && strings.HasSuffix(E(st.Addr), "CompositeHookResponse>.Status") {
 					okL = strings.HasSuffix(E(st.Val), ".syncResult.Status") && strings.Contains(E(st.Val), "parentRevision>")
@@ -294,7 +294,7 @@ func r11_3(r *Report, p *Program) {
 	// discovery: subresource registration after the resource table is complete
 	if rf := fn(r, p, rule, "dynamic/discovery.ResourceMap.refresh"); rf != nil {
 		var subMU, resMU ssa.Instruction
-		for _, b := range rf.Blocks {
+		for _, b := range engine.BlocksInl(rf) {
 			for _, in := range b.Instrs {
 				if mu, ok := in.(*ssa.MapUpdate); ok {
 					m := E(mu.Map)
@@ -326,7 +326,7 @@ func r11_3(r *Report, p *Program) {
 	}
 	if hs := fn(r, p, rule, "dynamic/discovery.APIResource.HasSubresource"); hs != nil {
 		ok := false
-		for _, b := range hs.Blocks {
+		for _, b := range engine.BlocksInl(hs) {
 			for _, in := range b.Instrs {
 				if rt, isR := in.(*ssa.Return); isR && E(rt.Results[0]) == "p0.subresourceMap[p1]" {
 					ok = true
